@@ -213,7 +213,8 @@ ExtractResult(c, s, a) == IF ~s.smps.set THEN Raise(s, "nothing_to_extract")
 PrivateStages == {"define_objectives", "solve_gradients", "solve_bo", "filter_solutions", "build_boxes", "fit_models",
                   "define_posterior"}
 SolveStages(a) == <<"define_objectives", IF a.bo THEN "solve_bo" ELSE "solve_gradients">>
-EstimateStages(a) == <<"filter_solutions", "build_boxes">> \o (IF a.fit THEN <<"fit_models">> ELSE <<>>) \o <<"define_posterior">>
+\* estimate_regions asserts _has_solved_problems before anything else ("check_solved"); so does _filter_solutions again
+EstimateStages(a) == <<"check_solved", "filter_solutions", "build_boxes">> \o (IF a.fit THEN <<"fit_models">> ELSE <<>>) \o <<"define_posterior">>
 Stages(a) ==
   CASE a.m = "solve_problems" -> SolveStages(a)
     [] a.m = "estimate_regions" -> EstimateStages(a)
@@ -225,6 +226,7 @@ Apply(c, s, a, stage) ==
              [] stage = "solve_gradients" -> SolveGradients(c, s, a)
              [] stage = "solve_bo" -> SolveBo(c, s, a)
              [] stage = "compute_eps" -> ComputeEps(c, s, a)
+             [] stage = "check_solved" -> (IF ~s.sol THEN Raise(s, "refused") ELSE s)
              [] stage = "filter_solutions" -> Filter(c, s, a)
              [] stage = "build_boxes" -> BuildBoxes(c, s, a)
              [] stage = "fit_models" -> FitModels(c, s, a)
@@ -238,7 +240,6 @@ Apply(c, s, a, stage) ==
              [] OTHER -> Raise(s, "X:unknown-stage")
   IN [r EXCEPT !.trail = Append(s.trail, stage)]
 
-\* estimate_regions asserts _has_solved_problems BEFORE anything else (so does _filter_solutions, its first stage)
 RECURSIVE RunStages(_, _, _, _)
 RunStages(c, s, a, todo) ==
   IF todo = <<>> \/ s.raised # "" THEN s ELSE RunStages(c, Apply(c, s, a, Head(todo)), a, Tail(todo))
@@ -334,6 +335,7 @@ DefineObjectivesStage == ~Idle /\ StageAct("define_objectives")
 SolveGradientsStage == ~Idle /\ StageAct("solve_gradients")
 SolveBoStage == ~Idle /\ StageAct("solve_bo")
 ComputeEpsStage == ~Idle /\ StageAct("compute_eps")
+CheckSolvedStage == ~Idle /\ StageAct("check_solved")
 FilterStage == ~Idle /\ StageAct("filter_solutions")
 BuildBoxesStage == ~Idle /\ StageAct("build_boxes")
 FitModelsStage == ~Idle /\ StageAct("fit_models")
@@ -342,7 +344,7 @@ SampleStage == ~Idle /\ StageAct("sample")
 OtherStage == ~Idle /\ \E m \in {"compute_expectation", "compute_ess", "eval_unnorm_posterior", "eval_posterior", "extract_result"} : StageAct(m)
 
 Next == \/ SolveProblems \/ EstimateRegions \/ FitPosterior \/ CallSample \/ CallReadOnly \/ CallEval
-        \/ DefineObjectivesStage \/ SolveGradientsStage \/ SolveBoStage \/ ComputeEpsStage \/ FilterStage \/ BuildBoxesStage
+        \/ DefineObjectivesStage \/ SolveGradientsStage \/ SolveBoStage \/ ComputeEpsStage \/ CheckSolvedStage \/ FilterStage \/ BuildBoxesStage
         \/ FitModelsStage \/ DefinePosteriorStage \/ SampleStage \/ OtherStage \/ Return
 Spec == Init /\ [][Next]_vars
 
